@@ -139,6 +139,9 @@ func opKafka(st *state, args []string) []string {
 	sizes := []int{1, 10, 100, 1000, 5000}
 	for i := 0; i < n; i++ {
 		key := fmt.Sprintf("k%d", i%nkeys)
+		if i%nkeys == 0 {
+			key = "" // what the format drivers hand over when no key field is configured
+		}
 		val := fmt.Sprintf("v%06d:%s", i, string(make([]byte, sizes[i%len(sizes)])))
 		sent[key+"\x00"+val]++
 		if fault == "broker-closed" && i == n/2 {
@@ -146,7 +149,11 @@ func opKafka(st *state, args []string) []string {
 			brokerClosed = true
 		}
 		sendDone := make(chan error, 1)
-		go func() { sendDone <- tr.Send([]byte(key), []byte(val)) }()
+		kb := []byte(key)
+		if key == "" && i%2 == 1 {
+			kb = nil
+		}
+		go func() { sendDone <- tr.Send(kb, []byte(val)) }()
 		select {
 		case <-sendDone:
 		case <-time.After(5 * time.Second):
